@@ -185,8 +185,11 @@ func VerifHarness_C07_TemplateBinding() {
 		line2 := vsymString("line2", 1)
 		out, _ = b.Process(ts2, line2, set)
 		vsymAssert(out == "1700000002: "+line2, "a second instance of the same template is bound to its own record")
+		first, _ := a.Process(ts1, line, set)
 		out, _ = a.Process(ts2, line2, set)
 		vsymAssert(out == "1700000002: "+line2, "an instance is bound to the record of each call")
+		// results are collected into streams while the stage goes on to the next record
+		vsymAssert(first == "1700000001: "+line, "a line that was returned is not altered by formatting the next record")
 	case 2: // label_format templates around a stage that rewrites the line
 		stage := func() *logql.LabelFormatExpr {
 			return &logql.LabelFormatExpr{Values: []logql.LabelTemplate{{Label: "orig", Template: `{{ .foo }}:{{ __line__ }}`}}}
